@@ -21,7 +21,8 @@ RULE = ("Two strategies. (1) Hypothesis draws a vector / matrix / scalar recipe 
         "operands with incompatible shapes for one operation; building must raise (or, if NumPy itself would "
         "broadcast the pair, agree with NumPy).  Non-trivial = the recipe contains a view of a view, a "
         "reflected operator, an array/list operand, a symmetric matrix, or is a mismatch case."
-        ' Also (round 6): a short-lived twin model whose square matrices have the other symmetry flag is built, evaluated, dropped and collected right before the judged model (id() reuse).')
+        ' Also (round 6): a short-lived twin model whose square matrices have the other symmetry flag is built, evaluated, dropped and collected right before the judged model (id() reuse).'
+        ' A name-equal sibling model (slice views of the same derived name and size, other elements) is evaluated first.')
 BUDGET = {"quick": {"workers": 16, "examples": 1300}, "thorough": {"workers": 16, "examples": 10000}}
 ASSUMPTIONS = ["NumPy broadcasting / slicing / linalg semantics are the definition of the counterpart operation"]
 MANIFEST = {
@@ -117,6 +118,15 @@ def _check_value(case):
     with quiet():
         if _short_lived_twin(env, recipe, case["points"][0]):
             classes.append("after-short-lived-twin-of-other-symmetry")
+        try:
+            from harness import gen as _gen
+            sib = _gen.sibling_views(recipe, env, len(show(recipe)))
+            if sib is not None:
+                # an earlier model whose slice views have the same derived name and size but other elements, evaluated once
+                _observe(BuildAlg(sib[0]).ev(sib[1]), dict(case["points"][0]))
+                classes.append("after-name-equal-sibling-model")
+        except Exception:
+            pass
         try:
             b = BuildAlg(env)
             obj = b.ev(recipe)
